@@ -1,4 +1,5 @@
 import CashewsVerif.Lemmas.TagsTrace
+import CashewsVerif.Lemmas.TagTemplates
 /-
 C12 — `delete_tags` removes every live key carrying the tag, whatever the write order.
 Property theorems only; helper lemmas live in `Lemmas/Tags*.lean`, the model in `Model/Tags.lean`.
@@ -161,5 +162,60 @@ theorem legacy_incr_rule_incomplete :
     let s2 := (s1.wincrWith false cfg 0 1 (some 8) [0]).1
     let s3 := (step cfg s2 (.adv 16)).1
     0 ∈ s2.last 0 ∧ readable (step cfg s3 (.deleteTags [0])).1 0 = some (.int 6) := by decide
+
+/-! ### second layer: the registry's template matching (what makes templated tags `Registered`) -/
+
+open CashewsVerif.TagTpl in
+/-- **The registry recovers the writer's field values.**  If every literal character of the key template is a
+separator, fields are separated by non-empty literals (`WellSeparated`) and no argument value contains a
+separator, then *every* way the registry's regular expression (`(?P<f>.+)?` per field) can match the rendered
+key binds the groups to exactly the writer's values — so Python's `re`, whatever its search order, does. -/
+theorem registry_recovers_fields (isSep : Char → Bool) (val : Nat → List Char) (keyTpl : Tpl)
+    (hw : WellSeparated isSep keyTpl = true) (hv : SepFreeVals isSep val keyTpl)
+    (asg : List (Nat × List Char)) (hm : Matches keyTpl (render val keyTpl) asg) :
+    asg = intended val keyTpl :=
+  match_unique keyTpl hw hv asg hm
+
+open CashewsVerif.TagTpl in
+/-- **Templated tags are registered tags.**  Under the same hypotheses, for a tag template whose fields all
+occur in the key template (`register_tag(tagTpl, keyTpl)`, or `@cache(key=keyTpl, tags=[tagTpl])`): the tag
+`get_key_tags` derives from the key is the tag the writer rendered from the call's arguments.  This is the
+hypothesis `Registered` of the precision theorems, discharged for templated tags. -/
+theorem registry_tag_is_writers_tag (isSep : Char → Bool) (val : Nat → List Char) (keyTpl tagTpl : Tpl)
+    (hw : WellSeparated isSep keyTpl = true) (hv : SepFreeVals isSep val keyTpl)
+    (hsub : ∀ f ∈ fields tagTpl, f ∈ fields keyTpl)
+    (asg : List (Nat × List Char)) (hm : Matches keyTpl (render val keyTpl) asg) :
+    render (lookup asg) tagTpl = render val tagTpl := by
+  rw [match_unique keyTpl hw hv asg hm]
+  exact render_congr tagTpl (fun f hf => lookup_intended val keyTpl f (hsub f hf))
+
+section
+open CashewsVerif.TagTpl
+
+/-- `"u:{0}:p:{1}"`, separators = the characters of its literals -/
+def keyTplEx : Tpl := [.lit ['u', ':'], .fld 0, .lit [':', 'p', ':'], .fld 1]
+def sepEx (c : Char) : Bool := c == ':' || c == 'u' || c == 'p'
+def valEx (f : Nat) : List Char := if f = 0 then ['1', '2'] else ['a']
+
+example : WellSeparated sepEx keyTplEx = true ∧ SepFreeVals sepEx valEx keyTplEx ∧
+    render valEx keyTplEx = ['u', ':', '1', '2', ':', 'p', ':', 'a'] := by
+  refine ⟨by decide, ?_, by decide⟩
+  intro f hf c hc
+  simp [keyTplEx, fields] at hf
+  rcases hf with h | h <;> subst h <;> simp [valEx] at hc
+  · rcases hc with h | h <;> subst h <;> decide
+  · subst hc; decide
+
+/-- the hypothesis is needed: with a value containing the separator the key `k:a:b:c` of template `k:{0}:{1}`
+matches in two ways (the writer's `0 ↦ a:b, 1 ↦ c`, and `0 ↦ a, 1 ↦ b:c`), and a tag `t:{0}` comes out differently -/
+example :
+    let tpl : Tpl := [.lit ['k', ':'], .fld 0, .lit [':'], .fld 1]
+    Matches tpl ['k', ':', 'a', ':', 'b', ':', 'c'] [(0, ['a', ':', 'b']), (1, ['c'])] ∧
+    Matches tpl ['k', ':', 'a', ':', 'b', ':', 'c'] [(0, ['a']), (1, ['b', ':', 'c'])] := by
+  constructor
+  · exact .lit ['k', ':'] (.fld 0 ['a', ':', 'b'] (.lit [':'] (.fld 1 ['c'] .nil)))
+  · exact .lit ['k', ':'] (.fld 0 ['a'] (.lit [':'] (.fld 1 ['b', ':', 'c'] .nil)))
+
+end
 
 end CashewsVerif.Props.C12
